@@ -185,17 +185,20 @@ Definition wrdm_of (r : rdm) : wrdm :=
    match r_units r with Some u => u | None => (0, 0) end).
 Definition subset {A} (eqb : A -> A -> bool) (a b : list A) : bool := forallb (fun x => mem eqb x b) a.
 
-(* witness form -> script, through the scenario's table *)
-Definition script_of (tab : list (bytes * script)) (w : bytes) : option script :=
-  match find (fun e => bytes_eqb (fst e) w) tab with Some e => Some (snd e) | None => None end.
-Definition hashes_of (tab : list (bytes * script)) (ws : list bytes) : option (list bytes) :=
-  all_some (map (fun w => option_map s_hash (script_of tab w)) ws).
+(* witness form -> script, through the scenario's table.  The ledger reads a witness entry under the language of the
+   bucket it sits in, so the lookup is by (language of the bucket, bytes): the same program bytes under two Plutus
+   versions (or equal to the CBOR of a native script) are different scripts with different hashes. *)
+Definition script_of (tab : list (bytes * script)) (l : lang) (w : bytes) : option script :=
+  match find (fun e => bytes_eqb (fst e) w && lang_eqb (s_lang (snd e)) l) tab with
+  | Some e => Some (snd e) | None => None end.
+Definition hashes_of (tab : list (bytes * script)) (l : lang) (ws : list bytes) : option (list bytes) :=
+  all_some (map (fun w => option_map s_hash (script_of tab l w)) ws).
 Definition obytes_eqb (a : option (list bytes)) (b : list bytes) : bool :=
   match a with Some l => list_eqb bytes_eqb l b | None => false end.
 
 Definition buckets_match (tab : list (bytes * script)) (t : built) (n v1 v2 v3 : list bytes) : bool :=
-  obytes_eqb (hashes_of tab n) (map s_hash (t_native t)) && obytes_eqb (hashes_of tab v1) (map s_hash (t_v1 t))
-  && obytes_eqb (hashes_of tab v2) (map s_hash (t_v2 t)) && obytes_eqb (hashes_of tab v3) (map s_hash (t_v3 t)).
+  obytes_eqb (hashes_of tab LNative n) (map s_hash (t_native t)) && obytes_eqb (hashes_of tab LV1 v1) (map s_hash (t_v1 t))
+  && obytes_eqb (hashes_of tab LV2 v2) (map s_hash (t_v2 t)) && obytes_eqb (hashes_of tab LV3 v3) (map s_hash (t_v3 t)).
 
 (* model = implementation ? *)
 Definition corr (c : case) (r : implres) : bool :=
@@ -302,9 +305,9 @@ Definition oracle_pointers (c : case) (o : obs) : N :=
 Definition count_b (h : bytes) (l : list bytes) : nat := length (filter (fun x => bytes_eqb x h) l).
 
 Definition oracle_scripts (c : case) (o : obs) : N :=
-  let look := fun (l : lang) (ws : list bytes) => map (fun w => (l, script_of (c_stab c) w)) ws in
+  let look := fun (l : lang) (ws : list bytes) => map (fun w => (l, script_of (c_stab c) l w)) ws in
   let ws := look LNative (o_native o) ++ look LV1 (o_v1 o) ++ look LV2 (o_v2 o) ++ look LV3 (o_v3 o) in
-  (* every shipped script is known and sits in the bucket of its language *)
+  (* every shipped entry is a script of the scenario under the language of its bucket *)
   if negb (forallb (fun e => match snd e with Some s => lang_eqb (s_lang s) (fst e) | None => false end) ws) then 1
   else
     let whashes := flat_map (fun e => match snd e with Some s => [s_hash s] | None => [] end) ws in
